@@ -13,6 +13,7 @@ package main
 
 import (
 	"fmt"
+	"regexp"
 	"sort"
 	"strings"
 )
@@ -775,6 +776,48 @@ func nsCorpus(tier string) []tplSpec {
 	g.add("ns:stage-errcmd/unionWith", mk(envelopes[5], aggCmd(stages[3].text)), "ns")
 	var out []tplSpec
 	for _, t := range g.out {
+		if tier == "quick" && !t.Tags["quick"] {
+			continue
+		}
+		out = append(out, t)
+	}
+	return out
+}
+
+// psCorpus: lines whose plan summary names index keys that also occur in the filter (C15,
+// plan-summary clause). The format (Params["ps"]) uses %i for the i-th field name of the line.
+type psSpec struct {
+	tplSpec
+	Format string
+}
+
+func psCorpus(tier string) []psSpec {
+	mk := func(name, filter, format string, quick bool) psSpec {
+		text := envelopes[0].wrap(`{"find":"<<COLL:coll>>","filter":` + filter + `,"$db":"<<DB:db>>"}`)
+		ps := format
+		for i := 0; i < 10; i++ {
+			ps = strings.ReplaceAll(ps, fmt.Sprintf("%%%d", i), fmt.Sprintf("<<G:g%d>>", i+1))
+		}
+		ps = regexp.MustCompile(`%\{([^}]*)\}`).ReplaceAllString(ps, "$1")
+		text = strings.Replace(text, `"planSummary":"COLLSCAN"`, `"planSummary":"`+ps+`"`, 1)
+		if !strings.Contains(text, ps) {
+			panic("psCorpus: plan summary not placed")
+		}
+		return psSpec{tplSpec{Name: "ps:" + name, Text: text, Tags: map[string]bool{"quick": quick, "ps": true}}, format}
+	}
+	all := []psSpec{
+		mk("ixscan-1", `{"<<G:g1>>":"<<S:s1>>"}`, "IXSCAN { %0: 1 }", true),
+		mk("ixscan-compound", `{"<<G:g1>>":"<<S:s1>>","<<G:g2>>":{"$gt":"<<S:s2>>"}}`, "IXSCAN { %0: 1, %1: -1 }", true),
+		mk("ixscan-or", `{"$or":[{"<<G:g1>>":"<<S:s1>>"},{"<<G:g2>>":"<<S:s2>>"}]}`, "IXSCAN { %0: 1 }, IXSCAN { %1: 1 }", true),
+		mk("ixscan-dotted", `{"<<G:g1>>":{"<<G:g2>>":"<<S:s1>>"}}`, "IXSCAN { %0.%1: 1 }", true),
+		mk("ixscan-with-id", `{"<<G:g1>>":"<<S:s1>>"}`, "IXSCAN { %0: 1, %{_id}: 1 }", false),
+		mk("express", `{"<<G:g1>>":"<<S:s1>>"}`, "EXPRESS_IXSCAN { %0: 1 }", false),
+		mk("collscan", `{"<<G:g1>>":"<<S:s1>>"}`, "COLLSCAN", true),
+		mk("idhack", `{"<<G:g1>>":"<<S:s1>>"}`, "IDHACK", false),
+		mk("ixscan-3", `{"<<G:g1>>":"<<S:s1>>","<<G:g2>>":"<<S:s2>>","<<G:g3>>":"<<S:s3>>"}`, "IXSCAN { %0: 1, %1: 1, %2: 1 }", false),
+	}
+	var out []psSpec
+	for _, t := range all {
 		if tier == "quick" && !t.Tags["quick"] {
 			continue
 		}
